@@ -160,6 +160,11 @@ impl Model for M {
                 s.net.put_frame(*node, f.clone()).map_err(|e| Fail::new("send_error", format!("{}", e)))?;
                 let wire: Vec<usize> = s.net.queue.iter().filter_map(|w| s.net.node_index(&w.to)).collect();
                 s.net.deliver_all(64);
+                // forwarding isolation (C10): nothing is sent because a payload was RECEIVED
+                if !s.net.queue.is_empty() {
+                    let w = &s.net.queue[0];
+                    return Err(Fail::new("relayed", format!("a received frame caused a datagram {} -> {} ({} bytes)", w.from, w.to, w.data.len())).with("mode", format!("{}", self.mode)));
+                }
                 let mut got = vec![];
                 for r in 0..self.n {
                     let frames = s.net.pop_frames(r);
@@ -352,7 +357,7 @@ pub fn run_router(c: &RouterCase) -> CaseResult {
     Ok(1)
 }
 
-fn variants(tier: Tier) -> Vec<(String, M, usize)> {
+pub fn variants(tier: Tier) -> Vec<(String, M, usize)> {
     vec![
         ("learning_switch".to_string(), M { mode: Mode::Switch, tier, n: 3 }, tier.pick(3, 4)),
         ("learning_hub".to_string(), M { mode: Mode::Hub, tier: Tier::Quick, n: 3 }, tier.pick(2, 3)),
